@@ -1112,7 +1112,9 @@ class DocutilsRenderer(RendererProtocol):
         target = uri_parts.fragment
         invs, domains, otypes = None, None, None
         if uri_parts.path:
-            path_parts = uri_parts.path.split(":")
+            # the object type is the remainder: it may itself contain `:`,
+            # e.g. `rst:directive:option`
+            path_parts = uri_parts.path.split(":", 2)
             with suppress(IndexError):
                 invs = path_parts[0]
                 domains = path_parts[1]
